@@ -22,6 +22,8 @@ type pred struct {
 	op   token.Token // EQL NEQ LSS LEQ GTR GEQ
 	x, y ssa.Value
 	neg  bool
+	// xLen / yLen: the operand stands for len(x) / len(y)
+	xLen, yLen bool
 }
 
 type prover struct {
@@ -145,8 +147,10 @@ func (p *prover) evalLen(x ssa.Value, a []int, depth int) int {
 				return p.eval(s.High, a, depth+1) - lo
 			}
 			// length of the operand minus lo
-			if _, isPtr := s.X.Type().Underlying().(*types.Pointer); !isPtr {
+			if pt, isPtr := s.X.Type().Underlying().(*types.Pointer); !isPtr {
 				return p.evalLen(s.X, a, depth+1) - lo
+			} else if at, isArr := pt.Elem().Underlying().(*types.Array); isArr {
+				return int(at.Len()) - lo // slice of a whole array (composite literal)
 			}
 		}
 	case *ssa.ChangeType:
@@ -184,7 +188,17 @@ func constInt(c *ssa.Const) (int, bool) {
 func (p *prover) holds(pr pred, a []int) bool {
 	var r bool
 	// len(x) == 0 style comparisons are covered through eval of the len call
-	x, y := p.eval(pr.x, a, 0), p.eval(pr.y, a, 0)
+	var x, y int
+	if pr.xLen {
+		x = p.evalLen(pr.x, a, 0)
+	} else {
+		x = p.eval(pr.x, a, 0)
+	}
+	if pr.yLen {
+		y = p.evalLen(pr.y, a, 0)
+	} else {
+		y = p.eval(pr.y, a, 0)
+	}
 	switch pr.op {
 	case token.EQL:
 		r = x == y
@@ -373,6 +387,25 @@ func Prove(ins ssa.Instruction, goals []goalT, nonneg NonNeg) (ok bool, atoms, c
 		findPhis(g.x, 0)
 		findPhis(g.y, 0)
 		findPhis(g.ylen, 0)
+		// a slice that is one of several alternatives (parts, or a literal when parts has the wrong length)
+		if ph, ok := g.ylen.(*ssa.Phi); ok && !seenPhi[ph] && ph.Block().Dominates(blk) {
+			loop := false
+			for _, pb := range ph.Block().Preds {
+				if ph.Block().Dominates(pb) {
+					loop = true
+				}
+			}
+			if !loop {
+				seenPhi[ph] = true
+				sp := split{phi: ph}
+				for i, pb := range ph.Block().Preds {
+					fs := edgeFacts(pb, ph.Block())
+					fs = append(fs, pred{op: token.EQL, x: ph, y: ph.Edges[i], xLen: true, yLen: true})
+					sp.cases = append(sp.cases, fs)
+				}
+				splits = append(splits, sp)
+			}
+		}
 	}
 	if len(splits) > 2 {
 		splits = splits[:2]
@@ -380,8 +413,16 @@ func Prove(ins ssa.Instruction, goals []goalT, nonneg NonNeg) (ok bool, atoms, c
 	// discover atoms by a dry evaluation
 	dry := make([]int, 64)
 	touch := func(pr pred) {
-		p.eval(pr.x, dry, 0)
-		p.eval(pr.y, dry, 0)
+		if pr.xLen {
+			p.evalLen(pr.x, dry, 0)
+		} else {
+			p.eval(pr.x, dry, 0)
+		}
+		if pr.yLen {
+			p.evalLen(pr.y, dry, 0)
+		} else {
+			p.eval(pr.y, dry, 0)
+		}
 	}
 	for _, f := range facts {
 		touch(f)
@@ -403,7 +444,7 @@ func Prove(ins ssa.Instruction, goals []goalT, nonneg NonNeg) (ok bool, atoms, c
 		}
 	}
 	// The enumeration window is small: a fact that involves a constant outside it could not be satisfied by any
-	// assignment and would make every goal hold vacuously. Such facts are dropped (fewer facts is sound); a goal
+	// assignment and would make every goal hold vacuously. Facts with constants beyond maxConst are dropped (fewer facts is sound); a goal
 	// with such a constant cannot be decided here.
 	var kept []pred
 	for _, f := range facts {
@@ -432,7 +473,33 @@ func Prove(ins ssa.Instruction, goals []goalT, nonneg NonNeg) (ok bool, atoms, c
 	if n > 6 || p.bad {
 		return false, n, 0
 	}
-	const lo, hi = -3, 7
+	// window: [-3, 7] for constants of magnitude <= 2; for larger constants (up to maxConst) it grows to
+	// (n+1)*K+1 so that a counter-example of the (difference-like) constraints, if one exists, fits in it
+	lo, hi := -3, 7
+	K := 0
+	for _, f := range facts {
+		K = maxInt(K, maxConstOf(f.x, 0), maxConstOf(f.y, 0))
+	}
+	for _, sp := range splits {
+		for _, cs := range sp.cases {
+			for _, f := range cs {
+				K = maxInt(K, maxConstOf(f.x, 0), maxConstOf(f.y, 0))
+			}
+		}
+	}
+	for _, g := range goals {
+		K = maxInt(K, maxConstOf(g.x, 0), maxConstOf(g.y, 0))
+	}
+	if K > 2 {
+		lo, hi = -(K + 1), (n+1)*K+1
+		size := 1
+		for i := 0; i < n; i++ {
+			size *= hi - lo + 1
+			if size > 3000000 {
+				return false, n, 0 // too many assignments: not decided here
+			}
+		}
+	}
 	a := make([]int, 64)
 	var rec func(i int) bool
 	rec = func(i int) bool {
@@ -584,7 +651,7 @@ func ProveGoals(ins ssa.Instruction, goals []Goal, nonneg NonNeg) bool {
 // Zero is the integer constant 0 for goals.
 var Zero ssa.Value = zero
 
-// bigConst: the expression contains an integer constant of magnitude > 2.
+// bigConst: the expression contains an integer constant of magnitude > maxConst.
 func bigConst(v ssa.Value, depth int) bool {
 	if v == nil || depth > 6 {
 		return false
@@ -592,7 +659,7 @@ func bigConst(v ssa.Value, depth int) bool {
 	switch x := v.(type) {
 	case *ssa.Const:
 		if k, ok := constInt(x); ok {
-			return k > 2 || k < -2
+			return k > maxConst || k < -maxConst
 		}
 		return false
 	case *ssa.BinOp:
@@ -647,4 +714,47 @@ func countsUp(v ssa.Value) bool {
 		return false
 	}
 	return nn(v, 0)
+}
+
+// maxConst: integer constants of larger magnitude are outside what the enumeration handles.
+const maxConst = 16
+
+func maxInt(a int, bs ...int) int {
+	for _, b := range bs {
+		if b > a {
+			a = b
+		}
+	}
+	return a
+}
+
+// maxConstOf: the largest magnitude of an integer constant in the expression.
+func maxConstOf(v ssa.Value, depth int) int {
+	if v == nil || depth > 6 {
+		return 0
+	}
+	switch x := v.(type) {
+	case *ssa.Const:
+		if k, ok := constInt(x); ok {
+			if k < 0 {
+				k = -k
+			}
+			return k
+		}
+	case *ssa.BinOp:
+		return maxInt(maxConstOf(x.X, depth+1), maxConstOf(x.Y, depth+1))
+	case *ssa.Convert:
+		return maxConstOf(x.X, depth+1)
+	case *ssa.ChangeType:
+		return maxConstOf(x.X, depth+1)
+	case *ssa.Slice:
+		m := 0
+		if pt, ok := x.X.Type().Underlying().(*types.Pointer); ok {
+			if at, ok := pt.Elem().Underlying().(*types.Array); ok {
+				m = int(at.Len())
+			}
+		}
+		return maxInt(m, maxConstOf(x.Low, depth+1), maxConstOf(x.High, depth+1))
+	}
+	return 0
 }
